@@ -119,13 +119,29 @@ Arguments flat_s {A}.
 Arguments flat_item {A}.
 
 (* ------------------------------------------------------------------ lists
-   a list line = (prefix over * # ; : as code points, denotation of its text) *)
-Definition line := (list N * list tree)%type.
+   a list line = (prefix over * # ; : as code points, denotation of its text, denotation of the text after the first
+   top-level colon if the line has one).  `; term : description` is the one-line form of a definition item: the third
+   component is its description (core.py:389-398 ParseLines.splitdl). *)
+Definition line := (list N * list tree * option (list tree))%type.
+Definition lpre (l : line) : list N := fst (fst l).
+Definition ltxt (l : line) : list tree := snd (fst l).
+Definition ldesc (l : line) : option (list tree) := snd l.
 Definition c_star : N := 42. Definition c_hash : N := 35. Definition c_semi : N := 59. Definition c_colon : N := 58.
 
-Definition head_char (l : line) : N := match fst l with c :: _ => c | [] => 0%N end.
-Definition long_prefix (l : line) : bool := match fst l with _ :: _ :: _ => true | _ => false end.
-Definition strip1 (l : line) : line := (tl (fst l), snd l).
+Definition head_char (l : line) : N := match lpre l with c :: _ => c | [] => 0%N end.
+Definition long_prefix (l : line) : bool := match lpre l with _ :: _ :: _ => true | _ => false end.
+Definition strip1 (l : line) : line := (tl (lpre l), ltxt l, ldesc l).
+(* all visible text of a line whose prefix is used up: a colon outside a definition term is ordinary text *)
+Definition line_text (l : line) : list tree := ltxt l ++ match ldesc l with Some d => d | None => [] end.
+(* splitdl (core.py:389-398, called at :531-538 only for prefix ';' when the item's first line has no prefix left):
+   the text after the first colon leaves the term and becomes a description node that FOLLOWS the term node *)
+Definition split_dl (c : N) (l : line) : line * list tree :=
+  if N.eqb c c_semi then
+    match lpre l, ldesc l with
+    | [_], Some d => ((lpre l, ltxt l, None), [Node LDd d])
+    | _, _ => (l, [])
+    end
+  else (l, []).
 
 (* lines swallowed by an item: following lines with the same first char and a prefix longer than 1 *)
 Fixpoint take_sub (c : N) (ls : list line) : list line * list line :=
@@ -162,23 +178,24 @@ Fixpoint den_list (fuel : nat) (ls : list line) : list tree :=
     | [] => []
     | l :: r =>
       let c := head_char l in
-      if N.eqb c 0 then snd l ++ den_list f r                (* no prefix left: item text *)
+      if N.eqb c 0 then line_text l ++ den_list f r          (* no prefix left: item text *)
       else if N.eqb c c_star || N.eqb c c_hash then
         let '(items, rest) := items_of (den_list f) (length ls) c ls in
         Node (if N.eqb c c_star then LUl else LOl) items :: den_list f rest
       else
         let '(sub, rest) := take_sub c r in
-        Node (if N.eqb c c_semi then LDt else LDd) (den_list f (map strip1 (l :: sub))) :: den_list f rest
+        let '(l1, dd) := split_dl c l in
+        Node (if N.eqb c c_semi then LDt else LDd) (den_list f (map strip1 (l1 :: sub))) :: dd ++ den_list f rest
     end
   end.
 
-Definition line_fuel (ls : list line) : nat := S (fold_right (fun l a => S (length (fst l)) + a) 0 ls) * 2.
+Definition line_fuel (ls : list line) : nat := S (fold_right (fun l a => S (length (lpre l)) + a) 0 ls) * 2.
 
 (* ------------------------------------------------------------------ blocks and documents *)
 Inductive block :=
 | BH (k : nat) (cap : list inl)
 | BP (lines : list (list inl))
-| BList (lines : list (list N * list inl))
+| BList (lines : list (list N * list inl * option (list inl)))
 | BTable (rows : list (list (bool * list inl)))
 | BPre (lines : list (list inl)).
 
@@ -186,7 +203,9 @@ Definition den_block (b : block) : list tree :=
   match b with
   | BH _ _ => []
   | BP lines => [Node LP (flat_map den_inline lines)]
-  | BList lines => let ls := map (fun pl => (fst pl, den_inline (snd pl))) lines in den_list (line_fuel ls) ls
+  | BList lines =>
+    let ls := map (fun pl => (fst (fst pl), den_inline (snd (fst pl)), option_map den_inline (snd pl))) lines in
+    den_list (line_fuel ls) ls
   | BTable rows => [Node LTable (map (fun row => Node LRow (map (fun cell => Node (LCell (fst cell)) (den_inline (snd cell))) row)) rows)]
   | BPre lines => [Node LPre (flat_map den_inline lines)]
   end.
